@@ -30,6 +30,18 @@ NAME_POOL = ["is", "IS", "Is", "is_", "is_t", "is1", "isotope", "Island", "IS_ST
 ATTR_POOL = ["abstract", "ABSTRACT", "public", "PRIVATE", "private", "Public", "bind(c)", "BIND (C)", "bind( c )", "external",
              "EXTERNAL", "extends(base)", "EXTENDS ( base_t )", "Extends(is_t)", "extends( isotope)", "extends (a) ", "extends()",
              "extends(a b)", "extends((a))", "xextends(q)y", "sequence", "is", "type", "a b", "", " ", "bind(c, name=x)"]
+# keyword-like words of the working tree's ford/sourceform.py (translate/c01.py `vocabulary`), set by harness/c01.py: now and
+# then an attribute is one of them, so that a word the code starts (or stops) to treat specially is met
+VOCAB: list = []
+
+
+def pick_attr(rng):
+    if VOCAB and rng.random() < 0.15:
+        w = rng.choice(VOCAB)
+        return w.upper() if rng.random() < 0.3 else w
+    return rng.choice(ATTR_POOL)
+
+
 PARAM_POOL = ["(k)", "( k )", "(k, n)", "( k ,n )", "()", "(kind_a,len_b)", "(is)"]
 GUARD_SPEC = ["integer", "real(8)", "t", "isotope", "character(len=*)", "character(*)", " point_t ", "is", ""]
 ALPHABET = list(" \t,:()abist_eyp01")
@@ -69,7 +81,7 @@ def gen_stmt(rng):
         kind = "colons"
         s = gen_kw(rng, "type") + rng.choice(WS)
         for _ in range(rng.choice([0, 0, 1, 1, 2, 3])):
-            s += "," + rng.choice(WS) + rng.choice(ATTR_POOL) + rng.choice(WS)
+            s += "," + rng.choice(WS) + pick_attr(rng) + rng.choice(WS)
         s += "::" + rng.choice(WS) + gen_name(rng) + rng.choice(WS)
         if rng.random() < 0.25:
             s += rng.choice(PARAM_POOL) + rng.choice(WS)
@@ -327,7 +339,9 @@ def run_typeq(ford, rng, n, rep, d, distinct=None):
                 distinct.add(common.digest(["typeq", text]))
             p = d / ("tq%d.f90" % (k % 16))
             p.write_text(text)
-            why = None
+            from harness import c01
+            feats = c01.file_features(text)
+            why, verdicts = None, []
             try:
                 with common.quiet() as buf:
                     f = FortranSourceFile(str(p), ProjectSettings())
@@ -335,15 +349,14 @@ def run_typeq(ford, rng, n, rep, d, distinct=None):
                 if obs is None:
                     why = "the file does not consist of exactly the declared %s" % case["host"]
                 else:
-                    why = progen.diff(exp, obs)
-                if why is None and "ERROR in file" in buf.getvalue():
+                    verdicts = c01.judge(exp, obs, feats, text)
+                if why is None and not verdicts and "ERROR in file" in buf.getvalue():
                     why = "diagnostic on valid input: " + buf.getvalue().strip().splitlines()[0][:120]
             except Exception as e:  # noqa
                 why = "FORD failed on valid input: %s: %s" % (type(e).__name__, str(e)[:100])
             if why is not None:
+                verdicts = [(why, c01.classify(why, feats, text))]
+            for why, fid in verdicts:
                 st["oracle_fail"] += 1
-                from harness import c01
-                feats = c01.file_features(text)
-                rep.failing_input({"stream": "typeq", "case": k, "spelling": sp, "why": why, "features": sorted(feats), "text": text},
-                                  c01.classify(why, feats, text))
+                rep.failing_input({"stream": "typeq", "case": k, "spelling": sp, "why": why, "features": sorted(feats), "text": text}, fid)
     return st
